@@ -160,6 +160,8 @@ CONTRACTS = [
     # ------------------------------------------------------------------ C07
     dict(
         name="dsw.spiderweb.set_vt", n_loops=0, lemmas=["pv_store_frame"],
+        # refutation search: check lengths around the machine-word boundary 4^(n-1) = 2^63..64, not astronomically large ones (4 ** n is computed)
+        candidates={"vt_length": [0, 1, 2, 3, 4, 5, 8, 13, 31, 32, 33, 34, 40, 64, 100]},
         params={"dna_sequence": "str", "vt_length": "nat"},
         requires={"check-length": "vt_length >= 1"},
         returns="str",
@@ -566,5 +568,189 @@ CONTRACTS = CONTRACTS + [dict(
         "cursor": "0 <= location",
         "vertex-in-range": "0 <= vertex_index and vertex_index < ipow(4, observed_length)",
         "queue-length": "len(index_queue) == len(dna_sequence)",
+    }, variant="len(dna_sequence) - location")},
+)]
+
+
+# ------------------------------------------------------------------------------------------------------------------ C19: remove_nasty_arc
+ROW_SPLIT = "".join("if accessor[former][%d] >= 0:\n    pass\n" % j for j in range(4))
+CONTRACTS = CONTRACTS + [dict(
+    name="dsw.spiderweb.remove_nasty_arc", n_loops=0,
+    ghost_params={"k": "nat"},
+    params={"accessor": "mat(ipow(4, k), 4)", "latter_map": "dict", "iteration": "nat", "has_insertion": "bool", "has_deletion": "bool", "verbose": "false"},
+    # the two views describe the same graph at entry (the invariant of every history of calls: established by accessor_to_latter_map, C14)
+    requires={"graph": "k >= 1 and k <= 31 and is_accessor(accessor, k)", "views-agree": "lm_of(latter_map, accessor, k)"},
+    returns="tuple", ghost_returns={"sc0": "mat(ipow(4, k), 4)"},
+    # the statistics computed after the update (reshape / boolean selection / Counter / argsort of the score table) are outside the modelled subset:
+    # `scores` and `score_record` become opaque there; exceptions those statements raise end the call and are not covered.
+    opaque_tail=("scores", "score_record"),
+    ensures={
+        # result = (accessor, latter_map, (former, latter), scores): the first two are the objects passed in, updated in place (frame analysis, C20)
+        "removed-arc-existed": "0 <= result[2][0] and result[2][0] < ipow(4, k) and result[2][1] >= 0 and "
+                               "accessor[result[2][0]][result[2][1] % 4] == result[2][1] and result[0][result[2][0]][result[2][1] % 4] == -1",
+        "no-other-entry-changes": "forall(lambda v: forall(lambda j: implies(not (v == result[2][0] and j == result[2][1] % 4), "
+                                  "result[0][v][j] == accessor[v][j]), 0, 4), 0, ipow(4, k), lambda v: result[0][v])",
+        "removed-arc-has-the-maximum-score": "forall(lambda v: forall(lambda j: sc0[v][j] <= sc0[result[2][0]][result[2][1] % 4], 0, 4), 0, ipow(4, k), "
+                                             "lambda v: sc0[v])",
+        # ... and that table is the score table of the graph before the call under the caller's own flags
+        "scores-are-those-of-the-call": "forall(lambda v: forall(lambda j: sc0[v][j] == iscore(latter_map, k, has_insertion, has_deletion, v, j), 0, 4), "
+                                        "0, ipow(4, k), lambda v: sc0[v])",
+        "views-still-agree": "lm_of(result[1], result[0], k)",
+    },
+    raises={"IndexError": None, "ValueError": None},
+    modifies=["accessor", "latter_map"],
+    # refutation: the real function on small graphs with both views in step (the ghost order k is part of each input)
+    concrete_inputs="[dict(k=k_, accessor=a_, latter_map=accessor_to_latter_map(a_), iteration=0, has_insertion=i_, has_deletion=d_, verbose=False) "
+                    "for k_ in (1, 2) for a_ in small_accessors(k_) for i_ in (True, False) for d_ in (True, False)]",
+    ghost={"entry": "ipow_mono(4, 0, k)",
+           "after_assign:vertex_indices": "sc0 = scores",
+           "after_assign:former": "mark(former)",
+           "after_assign:latter": "acc_h = accessor\nlm_h = latter_map\n"
+                                  "ipow_mono(4, 0, k - 1)\n"
+                                  "assert ipow(4, k) == 4 * ipow(4, k - 1), 'pow-step'\n"
+                                  "assert 0 <= former and former < ipow(4, k) and deg(accessor, former) >= 1, 'former-has-arcs'\n"
+                                  "assert 0 <= latter_value and latter_value <= 3, 'column'\n"
+                                  "assert forall(lambda v: forall(lambda j: sc0[v][j] <= sc0[former][latter_value], 0, 4), 0, ipow(4, k), lambda v: sc0[v]), "
+                                  "'row-maximum-is-the-global-maximum'\n"
+                                  "if former < ipow(4, k - 1):\n    shift_append(former, latter_value, ipow(4, k - 1), 0)\n"
+                                  "elif former < 2 * ipow(4, k - 1):\n    shift_append(former, latter_value, ipow(4, k - 1), 1)\n"
+                                  "elif former < 3 * ipow(4, k - 1):\n    shift_append(former, latter_value, ipow(4, k - 1), 2)\n"
+                                  "else:\n    shift_append(former, latter_value, ipow(4, k - 1), 3)\n"
+                                  "assert latter == (former % ipow(4, k - 1)) * 4 + latter_value, 'latter-shift-append'\n"
+                                  "assert latter == succ(former, latter_value, k), 'latter-is-the-shift-successor'\n"
+                                  "assert latter >= 0 and latter % 4 == latter_value, 'latter-column'\n"
+                                  # only what the update needs survives (the quantified library facts about where / unique / intersect1d / max are heavy)
+                                  "cut(k >= 1 and k <= 31, is_accessor(accessor, k), lm_of(latter_map, accessor, k), len(accessor) == ipow(4, k),\n"
+                                  "    forall(lambda v: forall(lambda j: sc0[v][j] <= sc0[former][latter_value], 0, 4), 0, ipow(4, k), lambda v: sc0[v]),\n"
+                                  "    forall(lambda v: forall(lambda j: sc0[v][j] == iscore(lm_h, k, has_insertion, has_deletion, v, j), 0, 4), 0, ipow(4, k), lambda v: sc0[v]),\n"
+                                  "    0 <= former and former < ipow(4, k) and deg(accessor, former) >= 1 and 0 <= latter_value and latter_value <= 3,\n"
+                                  "    latter == succ(former, latter_value, k) and latter >= 0 and latter % 4 == latter_value,\n"
+                                  "    latter == (former % ipow(4, k - 1)) * 4 + latter_value, ipow(4, k) == 4 * ipow(4, k - 1), ipow(4, k - 1) >= 1,\n"
+                                  "    forall(lambda v: forall(lambda j: acc_h[v][j] == accessor[v][j], 0, 4), 0, ipow(4, k), lambda v: acc_h[v]))",
+           "before_return": "assert acc_h[former][latter_value] == latter, 'the-removed-entry-was-that-arc'"},
+)]
+
+
+# ------------------------------------------------------------------------------------------------------------------ C09: repair_dna on a clean strand
+def repair_clean_variant(with_check):
+    name = "dsw.spiderweb.repair_dna#clean" + ("-vt" if with_check else "")
+    req = {"graph": "observed_length >= 1 and is_accessor(accessor, observed_length)", "start": "start_index < ipow(4, observed_length)",
+           "one-window": "len(dna_sequence) >= observed_length",
+           "clean": "walkv(accessor, dna_sequence, start_index, len(dna_sequence)) >= 0"}
+    if with_check:
+        req["check-length"] = "len(vt_check) >= 1"
+        ens = {"the-strand-or-nothing": "ite(vt_matches(vt_check, dna_sequence), len(result[0]) == 1 and result[0][0] == dna_sequence, len(result[0]) == 0)",
+               "no-error-detected": "result[1][0] == 0"}
+    else:
+        ens = {"exactly-the-strand": "len(result[0]) == 1 and result[0][0] == dna_sequence", "no-error-detected": "result[1][0] == 0"}
+    ghost = {
+        "entry": "ipow_mono(4, 0, observed_length)",
+        "loop1_begin": "if walkv(accessor, dna_sequence, start_index, location + 1) < 0:\n"
+                       "    walk_dead(A2(accessor), A(dna_sequence), P(dna_sequence, 0), start_index, location + 1, len(dna_sequence))\n"
+                       "assert walkv(accessor, dna_sequence, start_index, location + 1) >= 0, 'next-prefix-is-a-walk'\n"
+                       "mark(code(dna_sequence[location]))\n" + LIVE_SPLIT,
+    }
+    if with_check:
+        uniq = ("r = set_vt(dna_sequence, len(vt_check))\n"
+                "if vt_matches(vt_check, dna_sequence):\n"
+                "    pv_inj(A(codes(r)), 0, P(r, 1), A(codes(vt_check)), 0, P(vt_check, 1), len(vt_check) - 1, 4)\n"
+                "    j = 0\n"
+                "    while j < len(vt_check):\n"
+                "        assert codes(r)[j] == codes(vt_check)[j]\n"
+                "        j += 1\n"
+                "    assert r == vt_check, 'the-documented-check-is-unique'\n"
+                "else:\n"
+                "    if r == vt_check:\n"
+                "        pv_ext(A(codes(vt_check)), 0, P(vt_check, 1), A(codes(r)), 0, P(r, 1), len(vt_check) - 1, 4)\n"
+                "        assert vt_matches(vt_check, dna_sequence), 'a-check-equal-to-the-documented-one-matches'\n")
+        ghost["after_loop1"] = "same_string(split_sequences, 0, dna_sequence)\n" + uniq
+    else:
+        ghost["after_loop1"] = "same_string(split_sequences, 0, dna_sequence)"
+    loops = {1: dict(binds="location < len(dna_sequence)", invariant={
+        "cursor": "0 <= location and location <= len(dna_sequence)",
+        "on-the-walk": "vertex_index == walkv(accessor, dna_sequence, start_index, location) and 0 <= vertex_index and vertex_index < ipow(4, observed_length)",
+        "no-error-so-far": "detected_count == 0",
+        "one-segment": "len(split_sequences) == 1 and len(chuck_sequences) == 0 and len(index_markers) == 0",
+        "segment-is-the-prefix": "len(split_sequences[0]) == location and forall(lambda q: split_sequences[0][q] == dna_sequence[q], 0, location)",
+        "queue-length": "len(index_queue) == len(dna_sequence)",
+    }, variant="len(dna_sequence) - location")}
+    if with_check:
+        loops["after_loop1#1"] = dict(invariant={"range": "0 <= j <= len(vt_check) and len(r) == len(vt_check)",
+                                                 "equal-so-far": "forall(lambda q: r[q] == vt_check[q], 0, j)"}, variant="len(vt_check) - j")
+    return dict(
+        name=name, function="dsw.spiderweb.repair_dna", variant_of="dsw.spiderweb.repair_dna", n_loops=7,
+        params={"dna_sequence": "dna", "accessor": "mat(ipow(4, observed_length), 4)", "start_index": "nat", "observed_length": "nat",
+                "vt_check": "str" if with_check else "none", "has_indel": "bool", "heap_size": "nat"},
+        requires=req, returns="tuple", ensures=ens, raises={}, ghost=ghost, loops=loops, lemmas=["pv_store_frame"] if with_check else [],
+        types={"chuck_sequences": "list_obj", "index_markers": "list_obj"},
+        concrete_inputs="[dict(dna_sequence=w_, accessor=a_, start_index=s_, observed_length=k_, vt_check=c_, has_indel=h_, heap_size=hs_) "
+                        "for k_ in (1, 2) for (a_, s_, w_) in walk_cases(k_) for h_ in (False, True) for hs_ in (0, 1000) "
+                        "for c_ in " + ("(vt_spec(w_, 3), vt_spec(w_, 1), 'ACG', 'T')" if with_check else "(None,)") + "]",
+    )
+
+
+CONTRACTS = CONTRACTS + [repair_clean_variant(False), repair_clean_variant(True)]
+
+
+# ------------------------------------------------------------------------------------------------------------------ C09: the candidate list of repair_dna, any input
+def repair_candidates_variant(with_check):
+    name = "dsw.spiderweb.repair_dna#candidates" + ("-vt" if with_check else "")
+    opaque_locals = ["nucleotides", "location", "vertex_index", "index_queue", "split_sequences", "chuck_sequences", "index_markers", "used_indices", "nucleotide",
+                     "repaired_fragment_set", "used_index", "index", "chuck_sequence", "index_marker", "recall", "record", "times", "fragment", "_"]
+    locals_ = {n_: "opaque" for n_ in opaque_locals}
+    locals_.update({"detected_count": "int", "chuck_flag": "bool", "visited_times": "int"})
+    inv = "isnone(vt_check) or vt_check == set_vt(candidate, len(vt_check))"
+    return dict(
+        name=name, function="dsw.spiderweb.repair_dna", variant_of="dsw.spiderweb.repair_dna", n_loops=7,
+        # PARTIAL contract: everything before the candidate product (scan loop, look-back, path matching) is skipped; its results are arbitrary values
+        # (start_at).  The three remaining loops run over those arbitrary collections (havoc_loops).  What is proved holds for every such value:
+        # whatever the earlier phases computed, the list handed back is sorted, duplicate-free and - when a check is supplied - check-consistent.
+        start_at={"assign": "repaired_results", "locals": locals_},
+        havoc_loops=(5, 6, 7),
+        types={"repaired_dna_sequence": "str", "count": "int", "chuck_flag": "bool"},
+        collections={"repaired_results": inv},
+        params={"dna_sequence": "str", "accessor": "mat(ipow(4, observed_length), 4)", "start_index": "nat", "observed_length": "nat",
+                "vt_check": "str" if with_check else "none", "has_indel": "bool", "heap_size": "nat"},
+        requires={"order": "observed_length >= 1"} if not with_check else {"order": "observed_length >= 1", "check-length": "len(vt_check) >= 1"},
+        returns="tuple",
+        ensures={"sorted-and-duplicate-free": "sorted_unique(result[0])",
+                 "every-candidate-reproduces-the-check": "candidates_ok(result[0], 'repaired_results')"},
+        raises={"ValueError": None},          # set_vt of a candidate that is not over A, C, G, T (the clause is about calls that return)
+        concrete_inputs="[dict(dna_sequence=b_, accessor=a_, start_index=s_, observed_length=k_, vt_check=c_, has_indel=h_, heap_size=hs_) "
+                        "for k_ in (1, 2) for (a_, s_, b_, w_) in corrupted_cases(k_) for h_ in (False, True) for hs_ in (0, 2, 1000) "
+                        "for c_ in " + ("(vt_spec(w_, 3), vt_spec(b_, 2), 'T')" if with_check else "(None,)") + "]",
+    )
+
+
+CONTRACTS = CONTRACTS + [repair_candidates_variant(False), repair_candidates_variant(True)]
+
+
+# ------------------------------------------------------------------------------------------------------------------ C08: detection = the strand is not a walk
+CONTRACTS = CONTRACTS + [dict(
+    name="dsw.spiderweb.repair_dna#detect", function="dsw.spiderweb.repair_dna", variant_of="dsw.spiderweb.repair_dna", n_loops=7,
+    # PARTIAL contract ending with the scan loop (as #scan): an error is detected (the scan loop's counter leaves 0) exactly when the strand is not a walk
+    # of the graph from the start vertex - for every strand, not only singly edited ones.
+    stop_after_loop=1, opaque=("split_sequences", "chuck_sequences", "index_markers"),
+    params={"dna_sequence": "dna", "accessor": "mat(ipow(4, observed_length), 4)", "start_index": "nat", "observed_length": "nat",
+            "vt_check": "none", "has_indel": "bool", "heap_size": "nat"},
+    requires={"graph": "observed_length >= 1 and is_accessor(accessor, observed_length)", "start": "start_index < ipow(4, observed_length)",
+              "one-window": "len(dna_sequence) >= observed_length"},
+    returns="none",
+    ensures={"detected-exactly-when-not-a-walk": "(detected_count == 0) == (walkv(accessor, dna_sequence, start_index, len(dna_sequence)) >= 0)"},
+    raises={},
+    ghost={"entry": "ipow_mono(4, 0, observed_length)",
+           "loop1_begin": "mark(code(dna_sequence[location]))\n" + LIVE_SPLIT +
+                          "if detected_count == 0:\n"
+                          "    if walkv(accessor, dna_sequence, start_index, location + 1) < 0:\n"
+                          "        walk_dead(A2(accessor), A(dna_sequence), P(dna_sequence, 0), start_index, location + 1, len(dna_sequence))\n",
+           "after_assign:vertex_index": "sl = dna_sequence[location + 1: location + observed_length + 1]\n"
+                                        "pv_bound(A(codes(sl)), 0, P(sl, 0), P(sl, len(sl)), 4)\n"
+                                        "ipow_mono(4, len(sl), observed_length)"},
+    loops={1: dict(binds="location < len(dna_sequence)", invariant={
+        "cursor": "0 <= location and detected_count >= 0",
+        "vertex-in-range": "0 <= vertex_index and vertex_index < ipow(4, observed_length)",
+        "queue-length": "len(index_queue) == len(dna_sequence)",
+        "clean-so-far": "implies(detected_count == 0, location <= len(dna_sequence) and vertex_index == walkv(accessor, dna_sequence, start_index, location))",
+        "dirty-for-good": "implies(detected_count != 0, walkv(accessor, dna_sequence, start_index, len(dna_sequence)) < 0)",
     }, variant="len(dna_sequence) - location")},
 )]
